@@ -395,8 +395,8 @@ func vfC01Hooked(t *testing.T, res *vfResult, idx int) {
 			// all agree, so nothing but the reported suite shows the difference
 			so = append(so, WithServerHelloMessageHook(func(sh handshake.MessageServerHello) handshake.Message {
 				sib := map[uint16]uint16{
-					uint16(TLS_ECDHE_ECDSA_WITH_AES_128_GCM_SHA256): uint16(TLS_ECDHE_RSA_WITH_AES_128_GCM_SHA256),
-					uint16(TLS_ECDHE_ECDSA_WITH_AES_256_GCM_SHA384): uint16(TLS_ECDHE_RSA_WITH_AES_256_GCM_SHA384),
+					uint16(TLS_ECDHE_ECDSA_WITH_AES_128_GCM_SHA256):       uint16(TLS_ECDHE_RSA_WITH_AES_128_GCM_SHA256),
+					uint16(TLS_ECDHE_ECDSA_WITH_AES_256_GCM_SHA384):       uint16(TLS_ECDHE_RSA_WITH_AES_256_GCM_SHA384),
 					uint16(TLS_ECDHE_ECDSA_WITH_CHACHA20_POLY1305_SHA256): uint16(TLS_ECDHE_RSA_WITH_CHACHA20_POLY1305_SHA256),
 				}
 				if sh.CipherSuiteID != nil {
